@@ -43,6 +43,13 @@ def residue(draw, resname, types, max_atoms=4, allow_vs=True, prefix=None):
         if draw(st.integers(0, 2)) == 0:
             # [ virtual_sitesn ], centre of geometry of one or two atoms ("site funct from ...")
             vs = {"kind": "n", "atoms": [n, 0, 1][:draw(st.integers(2, 3))], "params": ["1"]}
+        elif n >= 3 and draw(st.integers(0, 2)) == 0:
+            # a site whose construction does not scale linearly with its defining atoms: [ virtual_sites3 ] with a
+            # fixed distance (function 2) or an out-of-plane term (function 4)
+            if draw(st.booleans()):
+                vs = {"kind": "3fd", "atoms": [n, 0, 1, 2], "params": ["2", "0.5", str(draw(st.sampled_from([0.15, 0.25])))]}
+            else:
+                vs = {"kind": "3out", "atoms": [n, 0, 1, 2], "params": ["4", "0.3", "0.3", str(draw(st.sampled_from([0.5, -1.0])))]}
     return {"resname": resname, "atoms": atoms, "bonds": bonds, "vs": vs}
 
 
@@ -150,12 +157,16 @@ def render_moltype(mt):
     bonds = []
     vs2 = []
     vsn = []
+    vs3 = []
     for r, res in enumerate(mt["residues"]):
         for i, j, length in res["bonds"]:
             bonds.append(f"{first[r] + i} {first[r] + j} 1 {length} 1000")
         if res["vs"] and res["vs"]["kind"] == "n":
             a = [first[r] + k for k in res["vs"]["atoms"]]
             vsn.append(f"{a[0]} {res['vs']['params'][0]} " + " ".join(map(str, a[1:])))
+        elif res["vs"] and res["vs"]["kind"] in ("3fd", "3out"):
+            a = [first[r] + k for k in res["vs"]["atoms"]]
+            vs3.append(" ".join(map(str, a)) + " " + " ".join(res["vs"]["params"]))
         elif res["vs"]:
             a = [first[r] + k for k in res["vs"]["atoms"]]
             vs2.append(" ".join(map(str, a)) + " " + " ".join(res["vs"]["params"]))
@@ -183,6 +194,9 @@ def render_moltype(mt):
     if vs2:
         lines.append("[ virtual_sites2 ]")
         lines += vs2
+    if vs3:
+        lines.append("[ virtual_sites3 ]")
+        lines += vs3
     if vsn:
         lines.append("[ virtual_sitesn ]")
         lines += vsn
